@@ -23,6 +23,7 @@ EXPLANATION = (
     " C01.g: the honest round trip through key binding: every KB-JWT claim the verifier reads is written by the holder's builder, `aud` is written, and the holder's sd_hash text equals the verifier's for 0..3 disclosures (clause shared with C04.K4)."
     " C01.h: the JSON envelope this library writes can be read back by it (rule shared with C10.F4)."
     " C01.i: which members are selectively disclosable is what the strategy designates: the path syntax and level / separator semantics of the strategy type (C05.P4 / P5) judged under C01."
+    " C01.a also: every iteration of the array walk ends in a push, a digest lookup (directly or through a per-element helper whose None exits are reachable only through a lookup) or an Err, and every member whose name is not a marker is copied: no plain `null` / empty value is passed over (element-accounted, member-accounted). C01.i also covers the issuer's walk (child-accounted, shared with C05.P1)."
 )
 ASSUMPTIONS = [
     "only the three structural clauses are claimed; equality of verified_claims with the selected view is not decided by any static argument available here",
@@ -199,6 +200,29 @@ def clause_a(ctx, fx, U):
         pushes = [b for (f, b, n) in U.arr_pushes if f is fn]
         look = [b for (f, b, n) in U.lookups if f is fn]
         elem_fns = set(f.name for (f, e, inner, l) in U.elem_sinks)
+        # a per-element helper (`fn unpack_element(&mut self, e) -> Result<Option<Value>>`) that hands "nothing here" back: legitimate when
+        # its own None / Ok(None) exits are reachable only through a digest lookup (judged right here)
+        import callgraph as _cg
+        for b, t in fn.calls():
+            cn = t.get("resolved")
+            if not t.get("resolved_local") or cn in elem_fns or cn == fn.name or cn not in fx.fns:
+                continue
+            H = fx.view(cn)
+            if "std::option::Option<" not in (H.raw.get("ret_ty") or "") or not (elem_fns & _cg.reachable_from(U.g, [cn])):
+                continue
+            hl = [b2 for (f2, b2, n2) in U.lookups if f2.name == cn] + [b2 for b2, t2 in H.calls() if t2.get("resolved") in elem_fns]
+            hv = vals(H)
+            nones = []
+            for e in cfg.exit_sites(H):
+                if "rv" not in e:
+                    continue
+                v = peel(hv._rv(e["rv"], e["bb"], e["idx"]))
+                inner = peel(v.kids[0]) if (v.kind == "agg" and v.d["agg"].get("variant") == "Ok" and v.kids) else v
+                if inner.kind == "agg" and inner.d["agg"].get("variant") == "None":
+                    nones.append(e)
+            r0 = cfg.reachable(H, [0], removed_blocks=hl)
+            if hl and not any(e["bb"] in r0 for e in nones):
+                elem_fns.add(cn)
         look += [b for b, t in fn.calls() if t.get("resolved") in elem_fns]
         for lp in next_loops(fn):
             if not any(b in cfg.reachable(fn, lp.body_entries, removed_blocks=[lp.bb]) for b in pushes):
